@@ -130,7 +130,7 @@ def _deltas_one(x, pristine, dtype, axis, window, mode, nd, concat, ta, in_place
     if not in_place and not np.array_equal(x, pristine):
         viol.append(core.violation(dict(tags, what="input_modified"),
                                    "apply(in_place=False) changed its input", case))
-    return viol, (got.shape == x.shape, bool(got.size))
+    return viol, (bool(concat), nd, bool(got.size), bool(in_place))
 
 
 def _target_axes(ndim, concat):
@@ -174,7 +174,7 @@ def _eval_deltas(pt, seed, tier):
                             viol.extend(v)
                             if o is not None:
                                 obs.add(o)
-                                if o[1] and nd > 0:
+                                if o[2] and nd > 0:
                                     nontriv += 1
                             if len(viol) >= 40:
                                 return core.result(viol, evals=evals, nontrivial_count=nontriv,
